@@ -70,7 +70,11 @@ def _calc_spanning_tree ():
         continue
       if not isinstance(adj[s1][s2], list):
         continue
-      assert s1 is not s2
+      if s1 == s2:
+        # A switch wired to itself.  Such a link is never part of the tree
+        # (its ports just don't flood, like those of any other non-tree link).
+        del adj[s1][s2]
+        continue
       good = False
       for l in adj[s1][s2]:
         if flip(l) in core.openflow_discovery.adjacency:
